@@ -182,7 +182,13 @@ pub fn gen_args(r: &mut Rng, name: &str) -> Vec<V> {
         "max" | "min" => { let v = gen_order_args(r, true); if r.chance(1, 2) { vec![V::Array(v)] } else { v } }
         "between" => { let mut v = gen_order_args(r, true); v.truncate(3); while v.len() < 3 { v.push(gen_small_val(r)); } v }
         "compare" => { let a = gen_val(r, 2); let b = if r.chance(1, 4) { a.clone() } else { gen_val(r, 2) }; vec![a, b] }
-        "float" | "int" => vec![match r.below(4) { 0 => V::Boolean(r.chance(1, 2)), 1 => num(gen_num(r)), _ => s(&if r.chance(1, 2) { gen_str(r) } else { format!("{}", gen_num(r)) }) }],
+        "float" | "int" => vec![match r.below(5) { 0 => V::Boolean(r.chance(1, 2)), 1 => num(gen_num(r)),
+            // what a person or another program writes for a number and `str::parse::<f64>` rejects (or reads differently): decimal commas, digit grouping, typographic
+            // minus signs, digits of other scripts, currency and percent signs, surrounding blanks, C / hex / binary notations
+            2 => s(*r.pick(&["12,5", "2,75", "-0,5", "1.234,5", "1,234.5", "1 000", "1'000", "1_000", "1\u{a0}000", "\u{2212}1", "\u{2212}12.5", "1e\u{2212}3", "\u{FF0D}3.25", "\u{2013}5",
+                "\u{FF11}\u{FF12}", "\u{663}", "\u{0967}", "12%", "$5", "5 €", " 1", "1 ", "\t2\n", "0x1F", "0b101", "1e", "1f", "1d", "1.0f32", "+1", "+.5", "-.5e1", ".", "1..2", "1e1.5", "--1", "1e+-2",
+                "Infinity", "-infinity", "NAN", "nan(1)", "1\u{200b}", "\u{feff}1", "1e9999", "-1e9999", "1e-9999", "0e0", "00.10", "1.e3", "1.", ".e1"])),
+            _ => s(&if r.chance(1, 2) { gen_str(r) } else { format!("{}", gen_num(r)) }) }],
         "if_then" => { let n = 2 + r.below(2); let mut v = vec![if r.chance(5, 6) { V::Boolean(r.chance(1, 2)) } else { gen_small_val(r) }]; for _ in 1..=n - 1 { v.push(gen_small_val(r)); } v }
         "chr" => vec![num(match r.below(4) { 0 => r.below(300) as f64, 1 => (r.below(1300) as f64) / 10.0 - 1.0, 2 => *r.pick(&[0.0, 127.0, 127.5, 128.0, -1.0, 65.0, 255.0, 126.999, f64::NAN, f64::INFINITY, f64::NEG_INFINITY, -0.0, -0.5, 1e300]), _ => gen_num(r) })],
         "ord" => vec![s(&match r.below(4) { 0 => char::from_u32(r.below(300) as u32).unwrap_or('a').to_string(), 1 => r.pick(NEEDLES).to_string(), _ => char::from_u32(r.below(0x11000) as u32).unwrap_or('b').to_string() })],
@@ -209,7 +215,7 @@ pub fn gen_args(r: &mut Rng, name: &str) -> Vec<V> {
         "encode_time" => { let mut v = vec![num(match r.below(6) { 0 => gen_num(r), 1 => *r.pick(&[24.0, -1.0, 23.9, -0.5]), _ => r.below(24) as f64 }),
                 num(match r.below(6) { 0 => gen_num(r), 1 => *r.pick(&[60.0, -1.0, 59.9]), _ => r.below(60) as f64 }), num(match r.below(6) { 0 => gen_num(r), 1 => *r.pick(&[60.0, -1.0, 59.0]), _ => r.below(60) as f64 })];
             if r.chance(1, 2) { v.push(num(match r.below(6) { 0 => gen_num(r), 1 => *r.pick(&[1000.0, 999.0, 1999.0, 2000.0, -1.0]), _ => r.below(1000) as f64 })); } v }
-        "date_to_string" | "time_to_string" => vec![s(*r.pick(&["%Y-%m-%d", "%H:%M:%S", "%Y-%m-%d %H:%M:%S%.3f", "%d.%m.%Y", "%%", "%Q", "%", "%9999Y", "plain", "", "%A %B", "%+", "%s", "%Y%", "%.3f"])), num(gen_date_num(r))],
+        "date_to_string" | "time_to_string" => vec![s(*r.pick(&["%Y-%m-%d", "%H:%M:%S", "%Y-%m-%d %H:%M:%S%.3f", "%d.%m.%Y", "%%", "%Q", "%", "%9999Y", "plain", "", "%A %B", "%+", "%s", "%Y%", "%.3f", "%z", "%:z", "%Z", "%#z", "%Y %z", "%c", "%x %X", "%e %k %l", "%G-W%V-%u", "%j", "%U %W", "%P %p", "%N", "%f", "%3f", "%::z"])), num(gen_date_num(r))],
         // formats WITHOUT a year (or without a day): not enough to determine a date - an error, whatever today's date is
         "string_to_date" if r.chance(1, 8) => { let (t, f) = *r.pick(&[("24.12.", "%d.%m."), ("12-24", "%m-%d"), ("359", "%j"), ("29.02.", "%d.%m."), ("2024", "%Y"), ("03", "%m"), ("Mon", "%a"), ("12-24 10", "%m-%d %H")]); vec![s(t), s(f)] }
         "string_to_date" => vec![s(&match r.below(5) { 0 => r.pick(&["2024-02-30", "2023-02-29", "2024-02-29", "0000-01-01", "9999-12-31", "2024-13-01", "2024-00-10", "2024-01-00", "2024-1-5", " 2024-01-05", "garbage", ""]).to_string(),
